@@ -29,9 +29,10 @@ RULES = {
     "R7": "persistence: writer/reader agreement incl. [:current_index] slices; current_index = number of stored values",
     "R8": "growable storage: the growth step used by _expand_storage is never a caller-supplied 0 (empty chunks are loaded and combined with capacity 0)",
     "R9": "the sample container the code indexes (ThetaHolder.add_theta / get_theta) refuses out-of-range indices and returns the i-th added sample (C10.R3 run here)",
+    "R11": "the positions the command passes to get_theta are the positions the samples were saved under: ThetaHolder.load_h5 visits the per-sample groups in numeric order of their names (C10.R1 run here)",
     "R10": "constructor options are live: every attribute the constructor binds from a parameter is read by a method of the class",
 }
-MIN = {"R1": 7, "R2": 2, "R3": 4, "R4": 3, "R5": 2, "R6": 3, "R7": 4, "R8": 1, "R9": 3, "R10": 1}
+MIN = {"R1": 7, "R2": 2, "R3": 4, "R4": 3, "R5": 2, "R6": 3, "R7": 4, "R8": 1, "R9": 3, "R10": 1, "R11": 9}
 TRUSTED = ["integer division identity N = C*(N//C) + N%C with 0 <= N%C < C", "itertools.islice / deque consume semantics"]
 TECHNIQUE = "symbolic summarisation of straight-line integer code into polynomial normal forms; guard dominance; writer/reader agreement; three-valued evaluation of path conditions under a boundary hypothesis"
 LEVEL_TEXT = ("Disjointness, coverage and balance of the chunks are exactly the affine identities discharged here, valid for "
@@ -932,7 +933,12 @@ def r_options(ctx):
     common.options_are_live(ctx, "R10", ["batchie.distance.mse.MSEDistance"], exempt=())
 
 
-RULE_FUNCS = [r1, r2, r3, r4, r5, r6, r7, r8, r_bsearch, r_holder, r_options]
+def r_sample_order(ctx):
+    from . import C10
+    ctx.borrow(C10.r1, "R11")
+
+
+RULE_FUNCS = [r1, r2, r3, r4, r5, r6, r7, r8, r_bsearch, r_holder, r_options, r_sample_order]
 
 
 def run(ctx):
@@ -949,6 +955,7 @@ def _rep(a, b):
 
 
 WITNESSES = [
+    ("sample groups visited in string order", "batchie.core", _rep("theta_keys = sorted(list(private_grp.keys()), key=int)", "theta_keys = sorted(list(private_grp.keys()))"), ["R11"]),
     ("early exit on np.allclose(a, b)", "batchie.distance.mse",
      _rep("        return np.mean((a - b) ** 2)", "        if np.allclose(a, b):\n            return 0.0\n        return np.mean((a - b) ** 2)"), ["R5"]),
     ("end index misses +1", "batchie.distance_calculation", _rep("        end_index += chunk_index + 1", "        end_index += chunk_index"), ["R1"]),
